@@ -1,5 +1,259 @@
-import Plonk.Model.Compress
+/-
+  C15 — "Compressed circuit descriptions compile to the identical keys."
+
+  Status of the statements below (all about the model's own `dictInsert`, `remapWitness`,
+  `decompressCompress`, `maxConstraints`, `truncateLen`, `nextPow2`, `compile`, `CompressedShape.valid`,
+  `packedSizeLimit`):
+
+  * items 1, 2, 3, 6: full.
+  * item 4 (`capacity_equiv`): the literal equivalence `c ≤ maxConstraints d ↔ trim succeeds` is FALSE for the
+    empty description on small parameters (`c = 0`, `d < 14`: `max_constraints` saturates at `0`, so `0 ≤ 0`
+    passes `from_bytes`, while `trim(nextPow2(6) = 8)` needs degree `14`); see `capacity_counterexample`.
+    Delivered: `capacity_exact` (the exact characterisation, all `c`, `d`), `capacity_equiv` (the literal
+    equivalence under the forced hypothesis `0 < c ∨ 14 ≤ d`), and `routes_agree` (what the property needs, for
+    ALL `c`, `d`: the compressed route = bound of `from_bytes` AND THEN the same `trim`, so both routes succeed
+    or fail together; the bound never rejects what `trim` accepts).  Forced hypothesis in all three:
+    `c + 6 ≤ 2^64` (the model's `nextPow2` runs 64 doublings, as `usize::next_power_of_two`; beyond that the
+    Rust code overflows).
+  * item 5: full under one forced hypothesis.  `compress_compile_same_keys`: for every `srs`, commit-key
+    length, label and composer `c` with `WiresInRange c` (every gate wire `< c.wit.size`),
+    `compile … (decompressCompress c) = (compile … c).map (fun k => { k with lay := decompressCompress c })`,
+    i.e. the same error, or a prover key equal in every field (`n constraints label sel sigma vk piIndexes x g
+    ckLen selE sigE8 linE vh`, hence `PKey.verifier` too) except the recorded layout `lay`, which is not
+    serialized (`compress_compile_same_fields`, `compress_compile_same_error`).  The sigma maps come from
+    `Perm.relabel_sigma` (lean-c05b, Plonk/Proofs/PermutationRelabel.lean).  `WiresInRange c` is FORCED: the
+    model's `wirePositions` silently drops wires `≥ wit.size` (the Rust code would panic on them), whereas the
+    rebuilt composer gives them fresh in-range labels, so the sigma maps would differ.  It holds for every
+    composer built by the gadgets.  `compress_compile_same_keys_of_sigma` is the hypothesis-free reduction to
+    the equality of the sigma maps.  The model has no `PKey → bytes` serializer, so "identical bytes" is stated
+    as equality of all the fields that reach the serializers.
+-/
+import Plonk.Proofs.CompressModel
 namespace Plonk.Props.C15
-open Plonk
+open Plonk Plonk.CompressModel
+
 theorem placeholder_consts : Generated.PACKED_BYTES_PER_CONSTRAINT = 857 ∧ Generated.PACKED_FIXED_BYTES = 30 ∧ Generated.SELECTORS_PER_POLYNOMIAL = 11 := by decide
+
+/-! ### the running example: 3 gates, witness 2 unused, gates 0 and 2 share their selector tuple,
+    a zero-valued public input on row 0 and row 2 inserted twice -/
+
+def exC : Composer :=
+  { gates := #[{ ql := 1, qo := 2, qarith := 1, a := 4, b := 1, c := 4, d := 0 },
+               { qm := 3, qc := 5, a := 1, b := 3, c := 0, d := 0 },
+               { ql := 1, qo := 2, qarith := 1, a := 3, b := 3, c := 4, d := 0 }],
+    wit := #[0, 11, 12, 13, 14],
+    pis := #[(2, 9), (0, 0), (2, 5)] }
+
+/-! ## 1. the dictionary -/
+
+/-- `dictInsert` is an index-of-first-occurrence dictionary -/
+theorem dictInsert_first_occurrence {tbl tbl' : List Nat} {k i : Nat} (h : dictInsert tbl k = (tbl', i)) :
+    tbl'[i]? = some k ∧ tbl <+: tbl' ∧ (∀ j, j < i → tbl'[j]? ≠ some k) :=
+  dictInsert_spec h
+
+example : dictInsert [7, 5, 7, 9] 7 = ([7, 5, 7, 9], 0) ∧ dictInsert [7, 5, 7, 9] 4 = ([7, 5, 7, 9, 4], 4) := by decide
+
+/-- `dict_roundtrip`: folding keys through the dictionary and looking the indices up in the final table returns
+    the keys, for ANY initial table (duplicates included); the initial table stays a prefix -/
+theorem dict_roundtrip (tbl keys : List Nat) :
+    (dictFold tbl keys).2.map (fun i => (dictFold tbl keys).1[i]?) = keys.map some ∧
+    tbl <+: (dictFold tbl keys).1 ∧ (dictFold tbl keys).2.length = keys.length ∧
+    (dictFold tbl keys).1.length ≤ tbl.length + keys.length :=
+  ⟨(CompressModel.dict_roundtrip tbl keys).1, (CompressModel.dict_roundtrip tbl keys).2.1,
+   (CompressModel.dict_roundtrip tbl keys).2.2, dictFold_length_le keys tbl⟩
+
+/-- base table with a duplicate (`0` twice), repeated keys: first index wins, new keys are appended once -/
+example : dictFold [0, 1, 2, 0] [5, 0, 5, 7, 2] = ([0, 1, 2, 0, 5, 7], [4, 0, 4, 5, 2]) := by decide
+
+/-! ## 2. the witness relabelling -/
+
+/-- `first_use_relabel_injective`: after any sequence of labels the map is a bijection between the labels seen
+    and `{0..next-1}`, assigned in order of first use; the outputs are the images of the labels -/
+theorem first_use_relabel_injective (ws : List Nat) :
+    (remapAll ws).2.2 = ws.map (look (remapAll ws).1) ∧
+    (∀ u, u ∈ ws → ∀ v, v ∈ ws → look (remapAll ws).1 u = look (remapAll ws).1 v → u = v) ∧
+    (∀ u, u ∈ ws → look (remapAll ws).1 u < (remapAll ws).2.1) ∧
+    (∀ v, v < (remapAll ws).2.1 → ∃ u, u ∈ ws ∧ look (remapAll ws).1 u = v) ∧
+    (∀ u, u ∈ ws → ∀ v, v ∈ ws →
+      (look (remapAll ws).1 u < look (remapAll ws).1 v ↔ ws.idxOf u < ws.idxOf v)) ∧
+    (remapAll ws).2.1 = ws.toFinset.card ∧
+    (∀ u, u ∈ (remapAll ws).1.map (·.1) ↔ u ∈ ws) := by
+  obtain ⟨h, e⟩ := remapAll_spec ws
+  exact ⟨e, fun u hu v hv => h.inj hu hv, h.bound, h.surj, h.order, h.card, h.keys⟩
+
+example : remapAll [4, 1, 4, 0, 1, 3] = ([(3, 3), (0, 2), (1, 1), (4, 0)], 4, [0, 1, 0, 2, 1, 3]) := by decide
+
+/-! ## 3. structure of `decompressCompress` -/
+
+/-- same gates up to the first-use relabelling `f` of the wires (injective on the used labels, onto
+    `{0..count-1}`, ordered by first use), `count` = number of distinct labels used, all witness values zero,
+    public-input rows = the original rows sorted and de-duplicated, with value zero -/
+theorem decompress_structure (c : Composer) :
+    (decompressCompress c).gates = c.gates.map (relabel (firstUseMap c)) ∧
+    (decompressCompress c).gates.size = c.gates.size ∧
+    (decompressCompress c).paddedSize = c.paddedSize ∧
+    (∀ i, selectorsOf ((decompressCompress c).gateAt i) = selectorsOf (c.gateAt i)) ∧
+    (decompressCompress c).wit = Array.replicate (usedWires c).toFinset.card 0 ∧
+    (∀ u, u ∈ usedWires c → ∀ v, v ∈ usedWires c → firstUseMap c u = firstUseMap c v → u = v) ∧
+    (∀ u, u ∈ usedWires c → firstUseMap c u < (usedWires c).toFinset.card) ∧
+    (∀ v, v < (usedWires c).toFinset.card → ∃ u, u ∈ usedWires c ∧ firstUseMap c u = v) ∧
+    (∀ u, u ∈ usedWires c → ∀ v, v ∈ usedWires c →
+      (firstUseMap c u < firstUseMap c v ↔ (usedWires c).idxOf u < (usedWires c).idxOf v)) ∧
+    (∃ rows : List Nat, (decompressCompress c).pis = (rows.map fun r => (r, 0)).toArray ∧
+      rows.Pairwise (· < ·) ∧ ∀ r, r ∈ rows ↔ r ∈ c.pis.toList.map (·.1)) := by
+  refine ⟨dc_gates c, dc_size c, dc_paddedSize c, dc_selectors c, ?_, fun u hu v hv => firstUse_inj c hu hv, ?_, ?_,
+    fun u hu v hv => firstUse_order c hu hv, _, dc_pis c, (sortedRows_spec c).1, (sortedRows_spec c).2⟩
+  · rw [dc_wit, firstUseCount_eq]
+  · intro u hu; rw [← firstUseCount_eq]; exact firstUse_lt c hu
+  · intro v hv; rw [← firstUseCount_eq] at hv; exact firstUse_surj c hv
+
+/-- on the example: labels `4,1,0,3` become `0,1,2,3`; the unused witness `2` disappears (4 witnesses instead
+    of 5, all zero); rows `2,0,2` become `0,2` with value zero; selectors untouched -/
+example :
+    (decompressCompress exC).gates.toList =
+      [{ ql := 1, qo := 2, qarith := 1, a := 0, b := 1, c := 0, d := 2 },
+       { qm := 3, qc := 5, a := 1, b := 3, c := 2, d := 2 },
+       { ql := 1, qo := 2, qarith := 1, a := 3, b := 3, c := 0, d := 2 }] ∧
+    (decompressCompress exC).wit.toList = [0, 0, 0, 0] ∧
+    (decompressCompress exC).pis.toList = [(0, 0), (2, 0)] ∧
+    usedWires exC = [4, 1, 4, 0, 1, 3, 0, 0, 3, 3, 4, 0] := by decide
+
+/-! ## 4. capacity -/
+
+/-- exact characterisation of the direct route, for all `c` and all `maxDegree` (= `pp.max_degree()`) -/
+theorem capacity_exact (c maxDegree : Nat) (hc : c + Generated.CIRCUIT_SIZE_PADDING ≤ 2 ^ 64) :
+    (∃ k, truncateLen (maxDegree + 1)
+        (nextPow2 (c + Generated.CIRCUIT_SIZE_PADDING) + Generated.ADDED_BLINDING_DEGREE) = .ok k) ↔
+    (c ≤ maxConstraints maxDegree ∧ (0 < c ∨ 14 ≤ maxDegree)) :=
+  CompressModel.capacity_exact c maxDegree hc
+
+/-- `capacity_equiv` (literal statement, under the forced hypothesis `0 < c ∨ 14 ≤ maxDegree`) -/
+theorem capacity_equiv (c maxDegree : Nat) (hc : c + Generated.CIRCUIT_SIZE_PADDING ≤ 2 ^ 64)
+    (hne : 0 < c ∨ 14 ≤ maxDegree) :
+    c ≤ maxConstraints maxDegree ↔
+    (∃ k, truncateLen (maxDegree + 1)
+        (nextPow2 (c + Generated.CIRCUIT_SIZE_PADDING) + Generated.ADDED_BLINDING_DEGREE) = .ok k) :=
+  CompressModel.capacity_equiv c maxDegree hc hne
+
+/-- the two routes succeed or fail for exactly the same capacities (ALL `c`, `maxDegree`): the compressed route
+    is `c ≤ max_constraints` (in `from_bytes`) followed by the same `trim` -/
+theorem routes_agree (c maxDegree : Nat) (hc : c + Generated.CIRCUIT_SIZE_PADDING ≤ 2 ^ 64) :
+    (c ≤ maxConstraints maxDegree ∧
+      ∃ k, truncateLen (maxDegree + 1)
+        (nextPow2 (c + Generated.CIRCUIT_SIZE_PADDING) + Generated.ADDED_BLINDING_DEGREE) = .ok k) ↔
+    (∃ k, truncateLen (maxDegree + 1)
+        (nextPow2 (c + Generated.CIRCUIT_SIZE_PADDING) + Generated.ADDED_BLINDING_DEGREE) = .ok k) :=
+  CompressModel.routes_agree c maxDegree hc
+
+/-- when `trim` succeeds the trimmed key has `nextPow2(c+6) + 7` points and the `d == 1` branch of `truncate`
+    is unreachable (`d ≥ 14`) -/
+theorem trim_value {c maxDegree k : Nat} (hc : c + Generated.CIRCUIT_SIZE_PADDING ≤ 2 ^ 64)
+    (h : truncateLen (maxDegree + 1)
+        (nextPow2 (c + Generated.CIRCUIT_SIZE_PADDING) + Generated.ADDED_BLINDING_DEGREE) = .ok k) :
+    k = nextPow2 (c + Generated.CIRCUIT_SIZE_PADDING) + Generated.ADDED_BLINDING_DEGREE + 1 ∧
+    14 ≤ nextPow2 (c + Generated.CIRCUIT_SIZE_PADDING) + Generated.ADDED_BLINDING_DEGREE :=
+  trim_ok_value hc h
+
+/-- the hypotheses are satisfiable and the boundary is sharp: `max_degree = 22` holds exactly 10 constraints -/
+example : (10 + Generated.CIRCUIT_SIZE_PADDING ≤ 2 ^ 64) ∧ maxConstraints 22 = 10 ∧
+    truncateLen 23 (nextPow2 (10 + Generated.CIRCUIT_SIZE_PADDING) + Generated.ADDED_BLINDING_DEGREE) = .ok 23 ∧
+    truncateLen 23 (nextPow2 (11 + Generated.CIRCUIT_SIZE_PADDING) + Generated.ADDED_BLINDING_DEGREE)
+      = .error .truncatedDegreeTooLarge ∧ maxConstraints 6 = 0 ∧ maxConstraints 0 = 0 := by
+  refine ⟨by decide, by decide, rfl, rfl, by decide, by decide⟩
+
+/-- why the literal equivalence needs `0 < c ∨ 14 ≤ maxDegree`: the empty description passes the bound of
+    `from_bytes` on parameters of degree 13, where `trim` fails (harmless: the compressed route runs the same
+    `trim` afterwards and fails there) -/
+theorem capacity_counterexample : 0 ≤ maxConstraints 13 ∧
+    truncateLen (13 + 1) (nextPow2 (0 + Generated.CIRCUIT_SIZE_PADDING) + Generated.ADDED_BLINDING_DEGREE)
+      = .error .truncatedDegreeTooLarge := ⟨Nat.zero_le _, rfl⟩
+
+/-! ## 5. same keys -/
+
+/-- the two compilations agree (success or error; every field of the prover key other than the recorded layout,
+    hence the verifier as well) as soon as the sigma maps agree -/
+theorem compress_compile_same_keys_of_sigma (srs : SRS) (srsLen : Nat) (label : List Nat) (c : Composer)
+    (hsig : sigmaMaps (decompressCompress c) (nextPow2 c.gates.size) = sigmaMaps c (nextPow2 c.gates.size)) :
+    compile srs srsLen label (decompressCompress c) =
+      (compile srs srsLen label c).map (fun k => { k with lay := decompressCompress c }) :=
+  dc_compile_of_sigma srs srsLen label c hsig
+
+/-- the hypothesis holds on the example (sigma maps on the padded domain of size 4) -/
+example : sigmaMaps (decompressCompress exC) (nextPow2 exC.gates.size) = sigmaMaps exC (nextPow2 exC.gates.size) := by
+  decide +kernel
+
+/-- `compress_compile_same_keys`: for every circuit whose gate wires are allocated witnesses, every
+    parameter set and every label, compiling the rebuilt composer returns the same result as compiling the
+    circuit directly — the same error, or a prover key equal in every field except the recorded layout -/
+theorem compress_compile_same_keys (srs : SRS) (srsLen : Nat) (label : List Nat) (c : Composer)
+    (h : WiresInRange c) :
+    compile srs srsLen label (decompressCompress c) =
+      (compile srs srsLen label c).map (fun k => { k with lay := decompressCompress c }) :=
+  dc_compile srs srsLen label c h
+
+/-- field by field (everything that reaches the serialized prover and verifier) -/
+theorem compress_compile_same_fields (srs : SRS) (srsLen : Nat) (label : List Nat) (c : Composer)
+    (h : WiresInRange c) {k : PKey} (hk : compile srs srsLen label c = .ok k) :
+    ∃ k', compile srs srsLen label (decompressCompress c) = .ok k' ∧
+      k'.n = k.n ∧ k'.constraints = k.constraints ∧ k'.label = k.label ∧ k'.sel = k.sel ∧ k'.sigma = k.sigma ∧
+      k'.vk = k.vk ∧ k'.piIndexes = k.piIndexes ∧ k'.ckLen = k.ckLen ∧ k'.selE = k.selE ∧ k'.sigE8 = k.sigE8 ∧
+      k'.linE = k.linE ∧ k'.vh = k.vh ∧ k'.x = k.x ∧ k'.g = k.g ∧ k'.verifier srs = k.verifier srs := by
+  rw [dc_compile srs srsLen label c h, hk]
+  exact ⟨_, rfl, rfl, rfl, rfl, rfl, rfl, rfl, rfl, rfl, rfl, rfl, rfl, rfl, rfl, rfl, rfl⟩
+
+/-- and the two routes fail with the same error -/
+theorem compress_compile_same_error (srs : SRS) (srsLen : Nat) (label : List Nat) (c : Composer)
+    (h : WiresInRange c) {e : PErr} (hk : compile srs srsLen label c = .error e) :
+    compile srs srsLen label (decompressCompress c) = .error e := by
+  rw [dc_compile srs srsLen label c h, hk]; rfl
+
+/-- the hypothesis holds on the example, whose compressed form is a genuinely different composer -/
+example : WiresInRange exC ∧ (decompressCompress exC).gates ≠ exC.gates ∧
+    (decompressCompress exC).wit.size ≠ exC.wit.size := by
+  refine ⟨?_, by decide, by decide⟩
+  intro i hi
+  have hi' : i < 3 := hi
+  rcases i with _ | _ | _ | i
+  · clear hi'; decide +revert
+  · clear hi'; decide +revert
+  · clear hi'; decide +revert
+  · omega
+
+/-! ## 6. bounded decoding -/
+
+/-- after validation every count is within the capacity and no out-of-range index can reach reconstruction -/
+theorem bounded_decode {s : CompressedShape} {base max : Nat} (h : s.valid base max = true) :
+    s.publicInputs.length ≤ max ∧ s.polynomials.length ≤ max ∧ s.constraints.length ≤ max ∧
+    s.scalars ≤ 11 * max ∧
+    (∀ r, r ∈ s.publicInputs → r < s.constraints.length) ∧
+    s.publicInputs.Pairwise (· < ·) ∧
+    (∀ p, p ∈ s.polynomials → ∀ i, i ∈ p → i < base + s.scalars) ∧
+    (∀ q, q ∈ s.constraints → q.1 < s.polynomials.length ∧ q.2.1 < s.witnesses ∧ q.2.2.1 < s.witnesses ∧
+        q.2.2.2.1 < s.witnesses ∧ q.2.2.2.2 < s.witnesses) :=
+  CompressModel.bounded_decode h
+
+/-- a valid description: the compressed form of the example (2 polynomials, 3 constraints, rows 0 and 2) -/
+example : CompressedShape.valid
+    { publicInputs := [0, 2], witnesses := 5, scalars := 3,
+      polynomials := [[0, 1, 0, 3, 0, 0, 1, 0, 0, 0, 0], [4, 0, 0, 0, 0, 5, 0, 0, 0, 0, 0]],
+      constraints := [(0, 4, 1, 4, 0), (1, 1, 3, 0, 0), (0, 3, 3, 4, 0)] } 3 3 = true := by decide
+
+/-- a description with more constraints than the capacity is rejected -/
+theorem too_many_constraints_rejected {s : CompressedShape} {base max : Nat} (h : max < s.constraints.length) :
+    s.valid base max = false :=
+  too_many_constraints_invalid h
+
+example : CompressedShape.valid
+    { publicInputs := [0, 2], witnesses := 5, scalars := 3,
+      polynomials := [[0, 1, 0, 3, 0, 0, 1, 0, 0, 0, 0], [4, 0, 0, 0, 0, 5, 0, 0, 0, 0, 0]],
+      constraints := [(0, 4, 1, 4, 0), (1, 1, 3, 0, 0), (0, 3, 3, 4, 0)] } 3 2 = false := by decide
+
+/-- the inflate limit of `from_bytes` is linear in the capacity -/
+theorem packed_size_limit (max : Nat) : packedSizeLimit max = 857 * max + 30 := packedSizeLimit_eq max
+
+theorem packed_size_limit_mono {a b : Nat} (h : a ≤ b) : packedSizeLimit a ≤ packedSizeLimit b :=
+  packedSizeLimit_mono h
+
+example : packedSizeLimit 2 = 1744 := by decide
+
 end Plonk.Props.C15
